@@ -1,4 +1,5 @@
 import Proofs.Reflexive
+import Proofs.MetaDelete
 
 /-!
   C16 — Reflexive sorting yields the succession order and terminates.
@@ -168,6 +169,100 @@ theorem links_injective_of_inv (a : AssocSpec) (l : ALinks) (hinv : AInv a l) :
     (a.tgtMany = false → ∀ x y c, (l.src x).head? = some c → (l.src y).head? = some c → x = y) :=
   ⟨fun h x y c => tgt_head_injective hinv h x y c, fun h x y c => src_head_injective hinv h x y c⟩
 
+/-! ### the state-level sort (`sortReflexiveSt`, what the driver runs) is the abstract one
+
+  `ReflexiveAt sch i a k`: association number `i` is the reflexive association `a` on class `k`
+  (srcKind = tgtKind = k, two different phrases), the link keys of class `k` are pairwise distinct (C09
+  `link_dict_spec`) and no other association carries the same rel id (needed for the "other phrase" search,
+  which takes the first link back to the class with that rel id and a different phrase). -/
+
+/-- the two partner functions the sort obtains through `Query.navigate` are the heads of the association's
+    link lists, and the phrase in the other direction is the association's other phrase -/
+theorem reflexive_partners (sch : Schema) (i : Nat) (a : AssocSpec) (k : Kind) (h : ReflexiveAt sch i a k)
+    (s : State) (x : Inst) (hx : s.kindOf x = k) :
+    partner sch s k a.rel a.srcPhrase x = ((s.links i).tgt x).head? ∧
+    partner sch s k a.rel a.tgtPhrase x = ((s.links i).src x).head? ∧
+    otherPhrase sch k a.rel a.srcPhrase = some a.tgtPhrase ∧
+    otherPhrase sch k a.rel a.tgtPhrase = some a.srcPhrase :=
+  ⟨partner_srcPhrase h s x hx, partner_tgtPhrase h s x hx,
+   otherPhrase_of h _ _ (Or.inl ⟨rfl, rfl⟩), otherPhrase_of h _ _ (Or.inr ⟨rfl, rfl⟩)⟩
+
+/-- termination at state level.  In every state that satisfies C02's invariant `Inv`, holds links only between
+    instances of the right classes (`Typed`) and only between live instances (`LiveOnly`: partners are
+    `< s.count`), for a ONE-TO-ONE reflexive association and any set of instances of class `k` below `s.count`:
+    the state-level sort under either phrase returns the abstract `sortReflexive` of the two link-head functions
+    for EVERY fuel ≥ `s.count` — the fuel `s.count + 1` the model uses is never exhausted -/
+theorem sort_terminates_state (sch : Schema) (i : Nat) (a : AssocSpec) (k : Kind) (h : ReflexiveAt sch i a k)
+    (hone : a.srcMany = false ∧ a.tgtMany = false) (s : State) (hinv : Inv sch s) (ht : Typed sch s) (hl : LiveOnly s)
+    (set : List Inst) (hk : ∀ x ∈ set, s.kindOf x = k) (hb : ∀ x ∈ set, x < s.count) (fuel : Nat) (hf : s.count ≤ fuel) :
+    sortReflexiveSt sch s set a.rel a.srcPhrase =
+      some (sortReflexive (fun x => ((s.links i).tgt x).head?) (fun x => ((s.links i).src x).head?) set fuel) ∧
+    sortReflexiveSt sch s set a.rel a.tgtPhrase =
+      some (sortReflexive (fun x => ((s.links i).src x).head?) (fun x => ((s.links i).tgt x).head?) set fuel) := by
+  have hai : AInv a (s.links i) := by have := hinv i; rwa [specAt_of_get h.get] at this
+  have hsym : ∀ x y, y ∈ (s.links i).src x ↔ x ∈ (s.links i).tgt y := hai.1
+  obtain ⟨hinjT, hinjS⟩ := links_injective_of_inv a (s.links i) hai
+  -- kinds and bounds of partners
+  have hkS : ∀ x y, s.kindOf x = k → ((s.links i).src x).head? = some y → s.kindOf y = k := by
+    intro x y _ hy
+    obtain ⟨b, hb', _, h2⟩ := ht i x y (List.mem_of_mem_head? hy)
+    rw [h.get] at hb'; cases hb'; rw [h2]; exact h.src
+  have hkT : ∀ x y, s.kindOf x = k → ((s.links i).tgt x).head? = some y → s.kindOf y = k := by
+    intro x y _ hy
+    obtain ⟨b, hb', h1, _⟩ := ht i y x ((hsym y x).2 (List.mem_of_mem_head? hy))
+    rw [h.get] at hb'; cases hb'; rw [h1]; exact h.tgt
+  have hbS : ∀ x y, ((s.links i).src x).head? = some y → y < s.count :=
+    fun x y hy => (hl i x y (List.mem_of_mem_head? hy)).2.1
+  have hbT : ∀ x y, ((s.links i).tgt x).head? = some y → y < s.count :=
+    fun x y hy => (hl i y x ((hsym y x).2 (List.mem_of_mem_head? hy))).1.1
+  -- fuel independence for both directions
+  have hfuelS : ∀ across f1 f2, s.count ≤ f1 → s.count ≤ f2 →
+      sortReflexive across (fun x => ((s.links i).src x).head?) set f1 =
+      sortReflexive across (fun x => ((s.links i).src x).head?) set f2 := by
+    intro across f1 f2 h1 h2
+    rw [sort_result_fuel_independent across _ s.count (fun x y c => hinjS hone.2 x y c) hbS set hb f1 h1,
+      sort_result_fuel_independent across _ s.count (fun x y c => hinjS hone.2 x y c) hbS set hb f2 h2]
+  have hfuelT : ∀ across f1 f2, s.count ≤ f1 → s.count ≤ f2 →
+      sortReflexive across (fun x => ((s.links i).tgt x).head?) set f1 =
+      sortReflexive across (fun x => ((s.links i).tgt x).head?) set f2 := by
+    intro across f1 f2 h1 h2
+    rw [sort_result_fuel_independent across _ s.count (fun x y c => hinjT hone.1 x y c) hbT set hb f1 h1,
+      sort_result_fuel_independent across _ s.count (fun x y c => hinjT hone.1 x y c) hbT set hb f2 h2]
+  cases set with
+  | nil => exact ⟨rfl, rfl⟩
+  | cons f tl =>
+    have hfk : s.kindOf f = k := hk f (by simp)
+    constructor
+    · unfold sortReflexiveSt
+      simp only [List.head?_cons, hfk, otherPhrase_of h _ _ (Or.inl ⟨rfl, rfl⟩),
+        navigate_direct' sch s f k a.rel a.srcPhrase _ (by rw [hfk]; exact lookup_srcPhrase h), Option.some.injEq]
+      rw [sortReflexive_congr _ (partner sch s k a.rel a.srcPhrase) _ (partner sch s k a.rel a.tgtPhrase)
+        (fun x => s.kindOf x = k) (f :: tl) hk hkS (fun x hx => partner_srcPhrase h s x hx)
+        (fun x hx => partner_tgtPhrase h s x hx) (s.count + 1)]
+      exact hfuelS _ _ _ (Nat.le_succ _) hf
+    · unfold sortReflexiveSt
+      simp only [List.head?_cons, hfk, otherPhrase_of h _ _ (Or.inr ⟨rfl, rfl⟩),
+        navigate_direct' sch s f k a.rel a.tgtPhrase _ (by rw [hfk]; exact lookup_tgtPhrase h), Option.some.injEq]
+      rw [sortReflexive_congr _ (partner sch s k a.rel a.tgtPhrase) _ (partner sch s k a.rel a.srcPhrase)
+        (fun x => s.kindOf x = k) (f :: tl) hk hkT (fun x hx => partner_tgtPhrase h s x hx)
+        (fun x hx => partner_srcPhrase h s x hx) (s.count + 1)]
+      exact hfuelT _ _ _ (Nat.le_succ _) hf
+
+/-- … hence in every reachable state: for any history in C02's domain (`Dom`: relate is applied to live
+    instances) over a well-formed schema, the state-level sort terminates with the abstract result -/
+theorem sort_reachable (sch : Schema) (hok : SchemaOk sch) (i : Nat) (a : AssocSpec) (k : Kind)
+    (h : ReflexiveAt sch i a k) (hone : a.srcMany = false ∧ a.tgtMany = false) (ops : List Op) (hd : Dom sch init ops)
+    (set : List Inst) (hk : ∀ x ∈ set, (run sch ops).kindOf x = k) (hb : ∀ x ∈ set, x < (run sch ops).count)
+    (fuel : Nat) (hf : (run sch ops).count ≤ fuel) :
+    sortReflexiveSt sch (run sch ops) set a.rel a.srcPhrase =
+      some (sortReflexive (fun x => (((run sch ops).links i).tgt x).head?)
+        (fun x => (((run sch ops).links i).src x).head?) set fuel) ∧
+    sortReflexiveSt sch (run sch ops) set a.rel a.tgtPhrase =
+      some (sortReflexive (fun x => (((run sch ops).links i).src x).head?)
+        (fun x => (((run sch ops).links i).tgt x).head?) set fuel) := by
+  have hall : AllInv sch (run sch ops) := run_allInv_from hok ops init (allInv_init sch) hd
+  exact sort_terminates_state sch i a k h hone (run sch ops) hall.inv hall.typed hall.liveOnly set hk hb fuel hf
+
 /-! non-vacuity: two chains 1→2→3 and 7→8 (`back`), set in the order 8 3 7 1 2 -/
 def bk : Inst → Option Inst := fun x => if x = 1 then some 2 else if x = 2 then some 3 else if x = 7 then some 8 else none
 def ac : Inst → Option Inst := fun x => if x = 2 then some 1 else if x = 3 then some 2 else if x = 8 then some 7 else none
@@ -175,5 +270,26 @@ example : IsChain ac bk [1, 2, 3] ∧ IsChain ac bk [7, 8] := by
   refine ⟨⟨by simp, ?_, ?_, ?_⟩, ⟨by simp, ?_, ?_, ?_⟩⟩ <;> simp [Adj, Succ, ac, bk]
 example : sortReflexive ac bk [8, 3, 7, 1, 2] 5 = [7, 8, 1, 2, 3] ∧ sortReflexive bk ac [8, 3, 7, 1, 2] 5 = [8, 7, 3, 2, 1] := by
   decide
+
+/-! non-vacuity of the state-level theorems: a one-to-one reflexive association R1 on class 0 with the phrases
+    "succeeds" / "precedes", three instances linked 0 — 1 — 2 by a history in C02's domain -/
+def aR : AssocSpec :=
+  { rel := "R1", srcKind := 0, srcKeys := [], srcMany := false, srcCond := true, srcPhrase := "succeeds",
+    tgtKind := 0, tgtKeys := [], tgtMany := false, tgtCond := true, tgtPhrase := "precedes" }
+def opsR : List Op := [.new 0 false, .new 0 false, .new 0 false, .relate 0 1 "R1" "precedes", .relate 1 2 "R1" "precedes"]
+example : ReflexiveAt [aR] 0 aR 0 := by
+  refine ⟨rfl, rfl, rfl, by decide, by unfold KeysDistinct; decide, ?_⟩
+  intro j b hj _
+  match j, hj with
+  | 0, _ => rfl
+example : SchemaOk [aR] := by
+  intro i a h
+  match i, h with
+  | 0, h => simp at h; subst h; decide
+example : Dom [aR] init opsR := by
+  simp only [opsR, Dom, OpOk, and_true, true_and]
+  decide
+example : (run [aR] opsR).count = 3 ∧ sortReflexiveSt [aR] (run [aR] opsR) [2, 0, 1] "R1" "succeeds" = some [0, 1, 2] ∧
+    sortReflexiveSt [aR] (run [aR] opsR) [2, 0, 1] "R1" "precedes" = some [2, 1, 0] := by decide
 
 end PyxProps.C16
